@@ -100,7 +100,7 @@ func QuickRuns(id string) (int, int) {
 	case "C12":
 		return 800, 120
 	case "C06":
-		return 1500, 120
+		return 900, 120
 	case "C10":
 		return 80, 120
 	case "C18":
